@@ -285,6 +285,9 @@ func (r *Real) makeFunc(f FieldDesc, t reflect.Type) reflect.Value {
 			if f.Cb == 10 && len(args) == 1 && strings.HasPrefix(args[0].String(), "!") {
 				ev = reflect.ValueOf(fmt.Errorf("cberr: %s", args[0].String())).Convert(errType)
 			}
+			if f.Cb == 14 {
+				ev = reflect.ValueOf(fmt.Errorf("cberr: refused")).Convert(errType)
+			}
 			return []reflect.Value{ev}
 		}
 		return nil
